@@ -53,109 +53,125 @@ def run(ck):
     # any other way of running a handler from here (non-virtual process of a subclass, calls in helper functions) is unknown idiom
     other = [n for n in proc.calls() if name_is(n.get("callee"), "process") and n not in vcalls]
     ck.require(not other, "Pipeline::process runs handlers through %s; idiom not recognised" % [describe(x) for x in other])
-    if len(vcalls) != 1:
-        ck.ob("C01-O2", sitestr(proc), False if len(vcalls) == 0 or len(vcalls) > 1 else None,
-              "%d virtual Handler::process calls in Pipeline::process (exactly one expected)" % len(vcalls), key="Pipeline::process|vcall-count")
+    if not vcalls:
+        ck.ob("C01-O2", sitestr(proc), False, "Pipeline::process never invokes Handler::process on its handlers", key="Pipeline::process|vcall-count")
         return
-    call = vcalls[0]
-    loops = enclosing_loops(proc, call)
-    if len(loops) != 1:
-        ck.ob("C01-O2", sitestr(proc, call), False if not loops else None, "the process() call is in %d nested loops (1 expected)" % len(loops),
-              key="Pipeline::process|vcall-not-in-loop")
+    if len({(c.get("l"), c.get("c")) for c in vcalls}) > 1:
+        ck.ob("C01-O2", sitestr(proc), None, "%d different Handler::process call sites in Pipeline::process; the evaluator idiom (one loop) is not recognised" % len(vcalls))
         return
-    loop = loops[0]
-    direction = loop_direction(ck, proc, loop)
-    ck.ob("C01-O2", sitestr(proc, loop), direction, "loop over m_handlers iterates forward (insertion order)" if direction else
-          "loop over m_handlers does not iterate begin->end", key="Pipeline::process|loop-direction")
-    elem = unwrap_ptr(call.get("obj"))
-    lv = decl_of_loopvar(loop) if loop.get("k") == "rangefor" else None
-    if lv is not None:
-        okobj = isinstance(elem, dict) and elem.get("k") == "ref" and elem.get("decl") == lv
-        ck.ob("C01-O2", sitestr(proc, call), okobj, "process() is invoked on the loop element" if okobj else "process() is invoked on %s, not on the loop element" % describe(elem),
-              key="Pipeline::process|vcall-object")
-    okarg = arg_is_param(call, 0, proc, 0)
-    ck.ob("C01-O2", sitestr(proc, call), okarg, "the caller's message is passed by reference" if okarg else
-          "process() receives %s instead of the caller's message" % describe(call["args"][0]), key="Pipeline::process|vcall-arg")
-    ptype = proc.params[0]["type"]
-    ck.ob("C01-O2", sitestr(proc), ptype == "QtLogger::LogMessage &", "parameter type is %s" % ptype, key="Pipeline::process|param-type")
+    # one source-level call; several instances exist when the loop lives in a helper that is used on more than one path
+    # (e.g. an early return for the unscoped case): every instance is held to the rules, each on the paths it lies on
+    is_scoped0 = lambda n: is_this_field(n, P + "::m_scoped")
+    live_s0, live_u0 = g.live(g.projector(atom_eq(is_scoped0, True))), g.live(g.projector(atom_eq(is_scoped0, False)))
+    sites0 = [g.site_of(c) for c in vcalls]
+    ck.ob("C01-O2", sitestr(proc), any(x in live_s0 for x in sites0) and any(x in live_u0 for x in sites0), "the handlers are run both in scoped and in unscoped mode",
+          key="Pipeline::process|vcall-count")
 
-    # ---- O3: loop exits under each outcome of the call
-    csite = g.site_of(call)
-    ck.require(csite is not None, "process() call has no CFG element")
-    is_call_atom = value_pred(proc, call)
-    keep_false = g.projector(atom_eq(is_call_atom, False))
-    keep_true = g.projector(atom_eq(is_call_atom, True))
-    # the branch right after the call must depend on the call (otherwise projection does nothing and the rule below would be vacuous)
-    decided = branch_depends_on(g, csite, call)
-    ck.ob("C01-O3", sitestr(proc, call), decided, "the result of process() decides the branch that follows it" if decided else
-          "the result of process() is not tested", key="Pipeline::process|verdict-ignored")
-    again_after_reject = g.can_reach(csite, csite, keep=keep_false, strict=True)
-    ck.ob("C01-O3", sitestr(proc, call), not again_after_reject,
-          "after a rejecting handler no further handler of this pipeline runs" if not again_after_reject else
-          "after process() returned false another handler of the same pipeline can still run: %s" % g.render_path(g.find_path(csite, csite, keep=keep_false)),
-          key="Pipeline::process|continues-after-reject")
-    # after acceptance: the loop goes on (next iteration test is reached on every path)
-    condsite = loop_cond_site(g, proc, loop)
-    goes_on = g.postdominated(csite, {condsite}, keep=keep_true)
-    ck.ob("C01-O3", sitestr(proc, call), goes_on,
-          "after an accepting handler the next element is examined on every path" if goes_on else
-          "after process() returned true the loop can be left without examining the next handler", key="Pipeline::process|stops-after-accept")
-    # null element skipped (never dereferenced)
-    if lv is not None:
-        is_elem = lambda n: n.get("k") == "ref" and n.get("decl") == lv
-        keep_null = g.projector(atom_eq(is_elem, False))
-        lvsite = g.site_of(loop["desugar"]["loopVarStmt"])
-        r = g.reach([lvsite], blocked={condsite}, keep=keep_null)
-        ck.ob("C01-O3", sitestr(proc, call), csite not in r, "a null list element is skipped, not dereferenced" if csite not in r else
-              "process() can be invoked on a null element", key="Pipeline::process|null-element")
-        # and skipping a null element goes on with the next one
-        nullpaths_exit = g.reach([lvsite], blocked={condsite}, keep=keep_null)
-        ck.ob("C01-O3", sitestr(proc, loop), g.exit not in nullpaths_exit, "a null element does not end the evaluation" if g.exit not in nullpaths_exit else
-              "a null element ends the evaluation of the pipeline", key="Pipeline::process|null-element-stops")
+    def evaluator(call):
+        on_scoped = g.site_of(call) in live_s0
+        loops = enclosing_loops(proc, call)
+        if len(loops) != 1:
+            ck.ob("C01-O2", sitestr(proc, call), False if not loops else None, "the process() call is in %d nested loops (1 expected)" % len(loops),
+                  key="Pipeline::process|vcall-not-in-loop")
+            return
+        loop = loops[0]
+        direction = loop_direction(ck, proc, loop)
+        ck.ob("C01-O2", sitestr(proc, loop), direction, "loop over m_handlers iterates forward (insertion order)" if direction else
+              "loop over m_handlers does not iterate begin->end", key="Pipeline::process|loop-direction")
+        elem = unwrap_ptr(call.get("obj"))
+        lv = decl_of_loopvar(loop) if loop.get("k") == "rangefor" else None
+        if lv is not None:
+            okobj = isinstance(elem, dict) and elem.get("k") == "ref" and elem.get("decl") == lv
+            ck.ob("C01-O2", sitestr(proc, call), okobj, "process() is invoked on the loop element" if okobj else "process() is invoked on %s, not on the loop element" % describe(elem),
+                  key="Pipeline::process|vcall-object")
+        okarg = arg_is_param(call, 0, proc, 0)
+        ck.ob("C01-O2", sitestr(proc, call), okarg, "the caller's message is passed by reference" if okarg else
+              "process() receives %s instead of the caller's message" % describe(call["args"][0]), key="Pipeline::process|vcall-arg")
+        ptype = proc.params[0]["type"]
+        ck.ob("C01-O2", sitestr(proc), ptype == "QtLogger::LogMessage &", "parameter type is %s" % ptype, key="Pipeline::process|param-type")
 
-    # ---- O4: scoped save / restore
-    is_scoped = lambda n: is_this_field(n, P + "::m_scoped")
-    keep_s = g.projector(atom_eq(is_scoped, True))
-    keep_u = g.projector(atom_eq(is_scoped, False))
-    set_f = [n for n in proc.calls(LM + "::setFormattedMessage") if obj_is_param(n, proc, 0)]
-    set_a = [n for n in proc.calls(LM + "::setAttributes") if obj_is_param(n, proc, 0)]
-    loopsite = g.site_of(loop["desugar"]["rangeStmt"]) if loop.get("k") == "rangefor" else condsite
-    for what, sets, getter, must_guard in (("formatted text", set_f, LM + "::formattedMessage", True), ("attributes", set_a, LM + "::attributes", False)):
-        tag = "fmsg" if must_guard else "attrs"
-        if not sets:
-            ck.ob("C01-O4", sitestr(proc), False, "scoped pipeline never restores the %s" % what, key="Pipeline::process|no-restore-" + tag)
-            continue
-        ssites = set(g.sites_of_nodes(sets))
-        # restore after the loop on all scoped paths
-        a = g.must_pass(ssites, keep=keep_s)
-        b = all(not g.can_reach(s, csite, keep=keep_s) for s in ssites)
-        c = g.postdominated(csite, ssites, keep=keep_s)
-        ck.ob("C01-O4", sitestr(proc, sets[0]), a and b and c,
-              "scoped: %s restored after the loop on every path (normal end and break)" % what if (a and b and c) else
-              "scoped: a path leaves Pipeline::process without restoring the %s (all-paths=%s, after-loop=%s, after-each-handler=%s)" % (what, a, b, c),
-              key="Pipeline::process|restore-not-on-all-paths-" + tag)
-        # unscoped: not executed
-        live_u = g.live(keep_u)
-        ck.ob("C01-O4", sitestr(proc, sets[0]), not (ssites & live_u), "unscoped: the %s are left as the handlers set them" % what if not (ssites & live_u)
-              else "unscoped pipeline resets the %s" % what, key="Pipeline::process|unscoped-restores-" + tag)
-        # the restored value is a local saved before the loop
-        for s in sets:
-            v = skip_copies(s["args"][0])
-            if not (v.get("k") == "ref" and v.get("dk") == "local"):
-                ck.ob("C01-O4", sitestr(proc, s), None, "restored value %s is not a local variable; idiom not recognised" % describe(v))
+        # ---- O3: loop exits under each outcome of the call
+        csite = g.site_of(call)
+        ck.require(csite is not None, "process() call has no CFG element")
+        is_call_atom = value_pred(proc, call)
+        keep_false = g.projector(atom_eq(is_call_atom, False))
+        keep_true = g.projector(atom_eq(is_call_atom, True))
+        # the branch right after the call must depend on the call (otherwise projection does nothing and the rule below would be vacuous)
+        decided = branch_depends_on(g, csite, call)
+        ck.ob("C01-O3", sitestr(proc, call), decided, "the result of process() decides the branch that follows it" if decided else
+              "the result of process() is not tested", key="Pipeline::process|verdict-ignored")
+        again_after_reject = g.can_reach(csite, csite, keep=keep_false, strict=True)
+        ck.ob("C01-O3", sitestr(proc, call), not again_after_reject,
+              "after a rejecting handler no further handler of this pipeline runs" if not again_after_reject else
+              "after process() returned false another handler of the same pipeline can still run: %s" % g.render_path(g.find_path(csite, csite, keep=keep_false)),
+              key="Pipeline::process|continues-after-reject")
+        # after acceptance: the loop goes on (next iteration test is reached on every path)
+        condsite = loop_cond_site(g, proc, loop)
+        goes_on = g.postdominated(csite, {condsite}, keep=keep_true)
+        ck.ob("C01-O3", sitestr(proc, call), goes_on,
+              "after an accepting handler the next element is examined on every path" if goes_on else
+              "after process() returned true the loop can be left without examining the next handler", key="Pipeline::process|stops-after-accept")
+        # null element skipped (never dereferenced)
+        if lv is not None:
+            is_elem = lambda n: n.get("k") == "ref" and n.get("decl") == lv
+            keep_null = g.projector(atom_eq(is_elem, False))
+            lvsite = g.site_of(loop["desugar"]["loopVarStmt"])
+            r = g.reach([lvsite], blocked={condsite}, keep=keep_null)
+            ck.ob("C01-O3", sitestr(proc, call), csite not in r, "a null list element is skipped, not dereferenced" if csite not in r else
+                  "process() can be invoked on a null element", key="Pipeline::process|null-element")
+            # and skipping a null element goes on with the next one
+            nullpaths_exit = g.reach([lvsite], blocked={condsite}, keep=keep_null)
+            ck.ob("C01-O3", sitestr(proc, loop), g.exit not in nullpaths_exit, "a null element does not end the evaluation" if g.exit not in nullpaths_exit else
+                  "a null element ends the evaluation of the pipeline", key="Pipeline::process|null-element-stops")
+
+        # ---- O4: scoped save / restore
+        is_scoped = lambda n: is_this_field(n, P + "::m_scoped")
+        keep_s = g.projector(atom_eq(is_scoped, True))
+        keep_u = g.projector(atom_eq(is_scoped, False))
+        set_f = [n for n in proc.calls(LM + "::setFormattedMessage") if obj_is_param(n, proc, 0)]
+        set_a = [n for n in proc.calls(LM + "::setAttributes") if obj_is_param(n, proc, 0)]
+        loopsite = g.site_of(loop["desugar"]["rangeStmt"]) if loop.get("k") == "rangefor" else condsite
+        for what, sets, getter, must_guard in (("formatted text", set_f, LM + "::formattedMessage", True), ("attributes", set_a, LM + "::attributes", False)):
+            tag = "fmsg" if must_guard else "attrs"
+            if not sets:
+                ck.ob("C01-O4", sitestr(proc), False, "scoped pipeline never restores the %s" % what, key="Pipeline::process|no-restore-" + tag)
                 continue
-            check_saved_local(ck, proc, g, v["decl"], getter, must_guard, keep_s, loopsite, s, what, tag)
-    # nothing else in Pipeline::process mutates the message
-    for n in proc.calls():
-        if n.get("ck") == "member" and obj_is_param(n, proc, 0) and n.get("constm") is False and n not in set_f and n not in set_a:
-            ck.ob("C01-O4", sitestr(proc, n), False, "Pipeline::process mutates the message itself: %s" % describe(n), key="Pipeline::process|extra-mutation")
-    uses = [r for r in refs_to(proc, lmsg)]
-    for r in uses:
-        p = proc.nodes[proc.parent[r["id"]]]
-        okuse = (p.get("k") == "call" and p.get("ck") == "member" and skip_copies(p.get("obj")).get("id") == r["id"]) or p.get("id") == call["id"]
-        if not okuse:
-            ck.ob("C01-O4", sitestr(proc, r), None, "the message escapes through %s; idiom not recognised" % describe(p))
-    ck.ob("C01-O4", sitestr(proc), True, "%d uses of the message parameter: accessor calls, the two restores and the handler call" % len(uses))
+            ssites = set(g.sites_of_nodes(sets))
+            # restore after the loop on all scoped paths
+            a = g.must_pass(ssites, keep=keep_s)
+            b = all(not g.can_reach(s, csite, keep=keep_s) for s in ssites) if on_scoped else True
+            c = g.postdominated(csite, ssites, keep=keep_s) if on_scoped else True
+            ck.ob("C01-O4", sitestr(proc, sets[0]), a and b and c,
+                  "scoped: %s restored after the loop on every path (normal end and break)" % what if (a and b and c) else
+                  "scoped: a path leaves Pipeline::process without restoring the %s (all-paths=%s, after-loop=%s, after-each-handler=%s)" % (what, a, b, c),
+                  key="Pipeline::process|restore-not-on-all-paths-" + tag)
+            # unscoped: not executed
+            live_u = g.live(keep_u)
+            ck.ob("C01-O4", sitestr(proc, sets[0]), not (ssites & live_u), "unscoped: the %s are left as the handlers set them" % what if not (ssites & live_u)
+                  else "unscoped pipeline resets the %s" % what, key="Pipeline::process|unscoped-restores-" + tag)
+            # the restored value is a local saved before the loop
+            for s in sets:
+                v = skip_copies(s["args"][0])
+                if not (v.get("k") == "ref" and v.get("dk") == "local"):
+                    ck.ob("C01-O4", sitestr(proc, s), None, "restored value %s is not a local variable; idiom not recognised" % describe(v))
+                    continue
+                check_saved_local(ck, proc, g, v["decl"], getter, must_guard, keep_s, loopsite, s, what, tag)
+        # nothing else in Pipeline::process mutates the message
+        for n in proc.calls():
+            if n.get("ck") == "member" and obj_is_param(n, proc, 0) and n.get("constm") is False and n not in set_f and n not in set_a:
+                ck.ob("C01-O4", sitestr(proc, n), False, "Pipeline::process mutates the message itself: %s" % describe(n), key="Pipeline::process|extra-mutation")
+        uses = [r for r in refs_to(proc, lmsg)]
+        for r in uses:
+            p = proc.nodes[proc.parent[r["id"]]]
+            okuse = (p.get("k") == "call" and p.get("ck") == "member" and skip_copies(p.get("obj")).get("id") == r["id"]) or p.get("id") == call["id"] \
+                or (p.get("k") == "decl" and p.get("inl_param")) or (p.get("k") == "call" and p.get("inl_body") is not None)
+            if not okuse:
+                ck.ob("C01-O4", sitestr(proc, r), None, "the message escapes through %s; idiom not recognised" % describe(p))
+        ck.ob("C01-O4", sitestr(proc), True, "%d uses of the message parameter: accessor calls, the two restores and the handler call" % len(uses))
+
+
+    for call in vcalls:
+        evaluator(call)
 
     adapters(ck)
     logmessage(ck)
@@ -226,6 +242,7 @@ def check_saved_local(ck, proc, g, decl, getter, must_guard, keep_s, loopsite, r
     init = skip_copies(var.get("init"))
     init_default = isinstance(init, dict) and init.get("k") == "construct" and not init.get("args")
     init_getter = isinstance(init, dict) and is_call(init, getter) and obj_is_param(init, proc, 0)
+    isfmt = lambda n: is_call(n, LM + "::isFormatted") and obj_is_param(skip_copies(n), proc, 0)
     writes = []
     for r in refs_to(proc, decl):
         if r["id"] == skip_copies(restore["args"][0])["id"]:
@@ -235,7 +252,6 @@ def check_saved_local(ck, proc, g, decl, getter, must_guard, keep_s, loopsite, r
             ck.ob("C01-O4", sitestr(proc, r), None, "unrecognised use of the saved %s local" % what)
             return
         writes.append((asg, rhs))
-    isfmt = lambda n: is_call(n, LM + "::isFormatted") and obj_is_param(n, proc, 0)
     if init_getter and not writes:
         # T saved = lmsg.getter(); (for the formatted text this would turn 'unformatted' into 'formatted with raw text')
         if must_guard:
@@ -245,6 +261,21 @@ def check_saved_local(ck, proc, g, decl, getter, must_guard, keep_s, loopsite, r
             s = g.site_of(dn)
             ok = g.dominated(loopsite, {s}, keep=keep_s)
             ck.ob("C01-O4", sitestr(proc, dn), ok, "scoped: %s saved before the loop" % what, key="Pipeline::process|save-" + tag)
+        return
+    if must_guard and not writes and isinstance(init, dict) and init.get("k") == "cond":
+        # const QString saved = lmsg.isFormatted() ? lmsg.formattedMessage() : QString();
+        c_, t_, f_ = skip_copies(init.get("cond")), skip_copies(init.get("t")), skip_copies(init.get("f"))
+        neg = False
+        while isinstance(c_, dict) and c_.get("k") == "unop" and c_.get("op") == "!":
+            neg = not neg
+            c_ = skip_copies(c_.get("e"))
+        if neg:
+            t_, f_ = f_, t_
+        oksel = isfmt(c_) and is_call(t_, getter) and obj_is_param(t_, proc, 0) and isinstance(f_, dict) and f_.get("k") == "construct" and not f_.get("args")
+        s = g.site_of(dn)
+        okdom = g.dominated(loopsite, {s}, keep=keep_s)
+        ck.ob("C01-O4", sitestr(proc, dn), bool(oksel and okdom), "scoped: the saved text is the formatted text iff the message is formatted, else the null text; taken before the loop" if (oksel and okdom) else
+              "scoped: saved formatted text is %s (before-loop=%s)" % (describe(init), okdom), key="Pipeline::process|save-guard-" + tag)
         return
     if not init_default:
         ck.ob("C01-O4", sitestr(proc, dn), None, "saved %s local has an unrecognised initialiser %s" % (what, describe(init)))
